@@ -1474,7 +1474,7 @@ def examine_batch(ctx, spec, data, big_n, seed, counts):
 def search_batch(ctx, rng, counts, deep):
     fam = rng.choice([c for c in SCIPY if c != 'TruncatedGaussian'])      # truncnorm is slow on 12500 points
     for cls in ('GaussianKDE', fam):
-        for big_n in (6001, 12500):
+        for big_n in ((6001, 12500) if (deep or cls == 'GaussianKDE') else (6001,)):
             meta, data = gen_data(rng, kind=rng.choice(['normal', 'gamma', 'bimodal', 'uniform']),
                                   n=rng.choice([12, 40, 90] if cls == 'GaussianKDE' else [20, 200]))
             spec = gen_spec(rng, cls, data)
